@@ -24,6 +24,25 @@ for tc in ET.parse(xml).getroot().iter("testcase"):
 passed -= failed
 os.unlink(xml)
 missing = sorted(set(base["stable_pass"]) - passed)
+# a heavily loaded machine makes a few timing-dependent tests fail: re-run the missing ones alone (serially), twice at most
+for _attempt in range(2):
+    if not missing or len(missing) > 25:
+        break
+    ids = []
+    for m in missing:
+        cls, name = m.split("::", 1)
+        ids.append(cls.replace(".", "/") + ".py::" + name)
+    fd, xml2 = tempfile.mkstemp(suffix=".xml"); os.close(fd)
+    subprocess.run(["/venv/bin/python", "-m", "pytest", "-q", "-p", "no:cacheprovider", "--timeout=900", "--junitxml=" + xml2] + ids,
+                   cwd=repo, env=env, stdout=subprocess.PIPE, stderr=subprocess.STDOUT, text=True)
+    try:
+        for tc in ET.parse(xml2).getroot().iter("testcase"):
+            tid = (tc.get("classname") or "") + "::" + (tc.get("name") or "")
+            if tc.find("failure") is None and tc.find("error") is None and tc.find("skipped") is None:
+                passed.add(tid)
+    finally:
+        os.unlink(xml2)
+    missing = sorted(set(base["stable_pass"]) - passed)
 print("passed=%d failed=%d stable_pass=%d missing=%d" % (len(passed), len(failed), len(base["stable_pass"]), len(missing)))
 for m in missing[:40]: print("  MISSING", m)
 sys.exit(1 if missing else 0)
